@@ -271,6 +271,11 @@ func emitDecode(b *boundPkg, rootName string, stream []byte, expect string) (int
 	}
 	b.printSchemaLine()
 	emit(fmt.Sprintf("sd decode %s %s %s", b.ID, rootName, hx(eq)), expect)
+	// the same stream through the schema-generic Lean ENCODER (Stef/SpecEnc.lean): decoded with the
+	// marked decoder, every frame re-encoded from the recovered marks, frame contents compared
+	// byte for byte with the real writer's
+	emit(fmt.Sprintf("se reencode %s %s %s", b.ID, rootName, hx(eq)), "same")
+	stats["reencode-ops"]++
 	return 2*len(eq) + len(expect), ps
 }
 
